@@ -266,6 +266,12 @@ class ConditionalStatementBase(StatementBase):
                 | frozenset(
                     dep.name for dep in dep_mapper(self.condition)))
 
+    def map_expressions(self, mapper, include_lhs=True):
+        result = super().map_expressions(mapper, include_lhs=include_lhs)
+        if self.condition is True:
+            return result
+        return result.copy(condition=mapper(self.condition))
+
 # }}}
 
 
